@@ -1119,3 +1119,7 @@ M("C07-fraction-without-separators", "C07", "src/cppparser/cppPreprocessor.cxx",
 M("C07-cast-to-short-ignores-width", "C07", "src/cppparser/cppExpression.cxx",
   '          if (stype->_flags & CPPSimpleType::F_short) {\n            if (stype->_flags & CPPSimpleType::F_unsigned) {\n              return Result((int)(unsigned short)value);\n            } else {\n              return Result((int)(short)value);\n            }\n          }\n', "",
   expect="R07.12|evaluate|cast-to-T_int|plain-return")
+
+M("C07-conditional-truncates-condition", "C07", "src/cppparser/cppExpression.cxx",
+  "      return r1.as_boolean() ?\n        _u._op._op2->evaluate() : _u._op._op3->evaluate();", "      return r1.as_integer() ?\n        _u._op._op2->evaluate() : _u._op._op3->evaluate();",
+  expect="R07.3|")
